@@ -512,6 +512,6 @@ def memo_rule(ctx: Ctx, rule):
     return res
 
 
-for _prop, _rid in (("C06", "C06.R7"), ("C01", "C01.R9"), ("C10", "C10.R5"), ("C13", "C13.R6")):
+for _prop, _rid in (("C06", "C06.R7"), ("C01", "C01.R9"), ("C10", "C10.R5"), ("C13", "C13.R6"), ("C07", "C07.R6"), ("C02", "C02.R7")):
     RULES.setdefault(_prop, []).append(Rule(_rid, "kind-dispatching encoders are never memoised by value equality", 5, memo_rule, "F-TAINT",
                                             "1, 1.0 and True keep their own encodings whatever was encoded before"))
